@@ -74,10 +74,10 @@ class C16(runner.Check):
 			"storage backend choice per input"],
 	}
 	tiers = {
-		"quick": {"legs": [("meme", 3000), ("meme_trunc", 1500), ("loci", 900)],
-			"wall_cap_s": 600, "chunk": 50},
-		"thorough": {"legs": [("meme", 150000), ("meme_trunc", 80000), ("loci", 40000)],
-			"wall_cap_s": 5400, "chunk": 500},
+		"quick": {"legs": [("meme", 10000), ("meme_trunc", 5000), ("loci", 3000)],
+			"wall_cap_s": 600, "chunk": 100},
+		"thorough": {"legs": [("meme", 1500000), ("meme_trunc", 800000), ("loci", 400000)],
+			"wall_cap_s": 5400, "chunk": 2000},
 	}
 
 	def prepare(self, tier, fresh=False):
@@ -564,6 +564,34 @@ class C16(runner.Check):
 					insig[i].tobytes() != c["insig"].astype(insig.dtype).tobytes()):
 				return "in_signal"
 			return None
+		# rows must equal, in order, a subsequence of the candidates that contains
+		# every definite one (unless the n_loci cap cut the result short); boundary
+		# (ambiguous) candidates may be present or absent.  Exact search with
+		# memoisation -- a greedy walk is wrong when two windows happen to hold
+		# the same bases.
+		cap = kw["n_loci"] is not None and n == kw["n_loci"]
+		memo = {}
+
+		def ok(i, j):
+			key = (i, j)
+			if key in memo:
+				return memo[key]
+			if i == n:
+				r = cap or not any(c["status"] == "definite" for c in cands[j:])
+			elif j >= len(cands):
+				r = False
+			else:
+				r = False
+				if same(cands[j], i) is None and ok(i + 1, j + 1):
+					r = True
+				elif cands[j]["status"] == "ambiguous" and ok(i, j + 1):
+					r = True
+			memo[key] = r
+			return r
+		if ok(0, 0):
+			return None
+		# diagnostics: greedy walk to the first point of disagreement
+		j = 0
 		for i in range(n):
 			while j < len(cands) and cands[j]["status"] == "ambiguous" and same(cands[j], i):
 				j += 1
@@ -580,14 +608,13 @@ class C16(runner.Check):
 					str(c["seq"].argmax(0)[:12].tolist()) if why == "seq" else
 					str((c["sig"] if why == "signal" else c["insig"])[0][:8].tolist())))
 			j += 1
-		if kw["n_loci"] is not None and n == kw["n_loci"]:
-			return None
 		rest = [c for c in cands[j:] if c["status"] == "definite"]
-		if rest:
+		if rest and not cap:
 			return ("locus_missing", "locus %r lies completely inside its chromosome and "
 				"passes the filters but is not in the result (%d rows returned)" % (
 				rest[0]["locus"], n))
-		return None
+		return ("row_wrong", "the result rows are not an in-order selection of the loci "
+			"that contains every locus lying inside its chromosome (%d rows)" % n)
 
 	def minimise(self, case, klass, key):
 		b = minimise.Budget(120)
